@@ -48,6 +48,12 @@ where
             match catch(|| vdaf.shard_with_random(&ctx, m, &nonce, &random)) {
                 Ok(Ok((ps, shares))) => {
                     let enc = case.typ.encode_measurement(m).unwrap();
+                    for (k, sh) in shares.iter().enumerate() {
+                        if let Err(e) = assembled_report_ok(sh, &ps) {
+                            run.fail(&format!("{}/assembled_report/agg{}", case.name, k.min(1)), &format!("{} (aggs={na}, proofs={np}, tape {tname}): report assembled in one buffer, aggregator {k}: {e}", case.name), json!({"case": case.name, "aggs": na, "agg": k}));
+                            return;
+                        }
+                    }
                     sharded.push((ps.get_encoded().unwrap(), shares, enc));
                 }
                 other => {
@@ -114,6 +120,26 @@ where
     });
 }
 
+/// A report assembled in ONE buffer (16-byte header, an input share, then the public share appended with
+/// `encode`): the bytes of the input share in the assembled report must be exactly its own encoding — the
+/// measurement-dependent public share must not leak into (or overwrite) them.
+fn assembled_report_ok<S: Encode, P: Encode>(share: &S, ps: &P) -> Result<(), String> {
+    let alone = share.get_encoded().map_err(|e| e.to_string())?;
+    let ps_alone = ps.get_encoded().map_err(|e| e.to_string())?;
+    for header in [16usize, 0, 5] {
+        let mut buf = vec![0xEEu8; header];
+        share.encode(&mut buf).map_err(|e| e.to_string())?;
+        ps.encode(&mut buf).map_err(|e| e.to_string())?;
+        if buf.len() != header + alone.len() + ps_alone.len() || buf[header..header + alone.len()] != alone[..] || !buf[..header].iter().all(|b| *b == 0xEE) {
+            return Err(format!("with a {header}-byte header, appending the public share changed the bytes of the input share (or the header) already in the buffer"));
+        }
+        if buf[header + alone.len()..] != ps_alone[..] {
+            return Err(format!("with a {header}-byte header, the public share appended after the input share differs from its stand-alone encoding"));
+        }
+    }
+    Ok(())
+}
+
 fn poplar(run: &Run, bits: usize, tapes: &[(String, Tape)]) {
     let vdaf: Poplar1<XofTurboShake128, 32> = Poplar1::new(bits);
     let inputs: Vec<Vec<bool>> = if bits <= 5 {
@@ -144,7 +170,15 @@ fn poplar(run: &Run, bits: usize, tapes: &[(String, Tape)]) {
         let mut sharded = vec![];
         for inp in &inputs {
             match catch(|| vdaf.shard_with_random(&ctx, &IdpfInput::from_bools(inp), &nonce, &random)) {
-                Ok(Ok((ps, shares))) => sharded.push((ps.get_encoded().unwrap(), shares[0].get_encoded().unwrap(), shares[1].get_encoded().unwrap())),
+                Ok(Ok((ps, shares))) => {
+                    for (k, sh) in shares.iter().enumerate() {
+                        if let Err(e) = assembled_report_ok(sh, &ps) {
+                            run.fail(&format!("poplar1/bits={bits}/assembled_report/agg{k}"), &format!("Poplar1(bits={bits}), input {:?} (tape {tname}): report assembled in one buffer, aggregator {k}: {e}", inp), json!({"bits": bits, "agg": k}));
+                            return;
+                        }
+                    }
+                    sharded.push((ps.get_encoded().unwrap(), shares[0].get_encoded().unwrap(), shares[1].get_encoded().unwrap()))
+                }
                 other => {
                     run.fail(&format!("poplar1/bits={bits}/shard"), &format!("Poplar1(bits={bits}): shard failed: {:?}", other.map(|r| r.map(|_| ()).map_err(|e| e.to_string()))), json!({"bits": bits}));
                     return;
@@ -177,7 +211,7 @@ fn poplar(run: &Run, bits: usize, tapes: &[(String, Tape)]) {
 
 fn main() {
     let run = Run::from_args("C17", Level::Exploration);
-    run.rule("all ordered pairs of measurements (full domain when small, else edge set) sharded with identical randomness and nonce, for every instance x aggregators x proofs x tape; compared byte-wise: helpers' Prio3 shares and public-share parts 1.., both Poplar1 input shares must be identical; leader measurement-share difference must equal the difference of encodings. distinct = distinct (instance, aggregators, proofs, tape) groups");
+    run.rule("all ordered pairs of measurements (full domain when small, else edge set) sharded with identical randomness and nonce, for every instance x aggregators x proofs x tape; compared byte-wise: helpers' Prio3 shares and public-share parts 1.., both Poplar1 input shares must be identical; leader measurement-share difference must equal the difference of encodings; in a report assembled in one buffer (header, input share, public share appended) the input-share bytes must be exactly the share's own encoding. distinct = distinct (instance, aggregators, proofs, tape) groups");
     run.assume("sharding randomness and nonces are a fixed tape alphabet");
     let q = run.quick();
     let tapes = tape_alphabet(run.seed, if q { 3 } else { 20 });
